@@ -10,7 +10,7 @@ import (
 	"verifharness/internal/val"
 )
 
-var c17Floor = []string{"after-rejected", "opts.none", "opts.W", "opts.P", "opts.I", "opts.WP", "opts.WI", "opts.PI", "opts.WPI", "spell.dq", "spell.brackets", "spell.neutral-under-option",
+var c17Floor = []string{"after-rejected", "comment", "opts.none", "opts.W", "opts.P", "opts.I", "opts.WP", "opts.WI", "opts.PI", "opts.WPI", "spell.dq", "spell.brackets", "spell.neutral-under-option",
 	"lit.dquote", "lit.squote", "lit.backtick", "lit.backslash", "lit.bracket", "ident.dquote-in-backtick", "ident.bracket", "ident.space", "array.nested", "array.empty", "array.with-bracket-literal", "path.bracket", "where", "shape.derived", "shape.cte", "shape.union"}
 
 func init() {
@@ -300,6 +300,16 @@ func c17Run(c *fw.Case) {
 		feats = append(feats, "spell.brackets")
 	}
 	sql := render(dq, brackets)
+	// a comment holds neither quotes nor brackets, whatever characters it contains
+	if force == "comment" || c.Chance(0.25) {
+		cm := gen.Pick(c.R, []string{"/* user's \"id\" [1] `x */", "/* it's */", "-- don't [ \"\n", "# it's [0] `\n", "/* [[ */", "// can't \"\n"})
+		if i := strings.Index(sql, " FROM "); i >= 0 {
+			sql = sql[:i] + " " + cm + sql[i:]
+			canonical = strings.Replace(canonical, " FROM ", " "+cm+" FROM ", 1)
+			r0 = Run(map[string]any{"root": val.Copy(d)}, canonical)
+			feats = append(feats, "comment")
+		}
+	}
 	var doc map[string]any
 	if o.Wrapped {
 		doc = val.CopyMap(d)
